@@ -370,7 +370,7 @@ func httpCell(cause string) cellResult {
 		res.Verdict, res.Detail = "inconclusive", "TCP port 2112 (hard-wired in cmd/cmd.go) is in use by another process"
 		return res
 	}
-	d := &daemon{dir: newDir(), extraArgs: []string{"-metrics", "-healthz", "-log-level", "debug"}}
+	d := &daemon{dir: newDir(), extraArgs: []string{"-metrics", "-healthz", "-audit-metrics", "-log-level", "debug"}}
 	defer os.RemoveAll(d.dir)
 	d.sshdPath = filepath.Join(d.dir, "sshd-pipe")
 	d.auditPath = filepath.Join(d.dir, "audit-pipe")
@@ -594,7 +594,7 @@ func runC08(run *mc.Run) int {
 		}
 	}
 	cov := mc.Coverage{Level: "fault_enumeration", Evaluations: len(results), Distinct: len(results) - inconclusive, Exhaustive: inconclusive == 0, Samples: samples,
-		Rule:  "fault enumeration on the built binary over real FIFOs: 10 run-time causes (sshd pipe EOF, sshd writer dying mid-line with a replacement writer connecting 300 ms later (idle and stalled-output only), audit pipe EOF, unparsable audit line, a LOGIN record whose pid is not a number, a login the correlator rejects while the next login is already buffered, output /dev/full, output FIFO whose reader left, SIGTERM, SIGINT) x load {idle, stalled-output: the events FIFO is never drained so the line buffer and the audit pipe stay full (write end accepts no byte for >=300 ms), saturated: a writer keeps the audit FIFO full - single-record events written at full speed, >=8 MB written and the pipe found full >=50 times - flow equilibrium with the 10000-slot line buffer full}, 2 cells with -metrics -healthz -log-level debug and an HTTP client stalled mid-response (pipelined /metrics requests, never read) x {audit pipe EOF, SIGTERM}, SIGINT / SIGTERM to a daemon that was started with that signal ignored (inherited disposition), 6 start-up causes (sshd/audit path is a regular file, a directory, missing); oracle: the process exits within 10 s of the cause, non-zero for failures. A cell whose set-up could not be reached is inconclusive (exit 0, exhaustive=false). distinct_nontrivial = conclusive cells",
+		Rule:  "fault enumeration on the built binary over real FIFOs: 10 run-time causes (sshd pipe EOF, sshd writer dying mid-line with a replacement writer connecting 300 ms later (idle and stalled-output only), audit pipe EOF, unparsable audit line, a LOGIN record whose pid is not a number, a login the correlator rejects while the next login is already buffered, output /dev/full, output FIFO whose reader left, SIGTERM, SIGINT) x load {idle, stalled-output: the events FIFO is never drained so the line buffer and the audit pipe stay full (write end accepts no byte for >=300 ms), saturated: a writer keeps the audit FIFO full - single-record events written at full speed, >=8 MB written and the pipe found full >=50 times - flow equilibrium with the 10000-slot line buffer full}, 2 cells with -metrics -healthz -audit-metrics -log-level debug (every optional worker running) and an HTTP client stalled mid-response (pipelined /metrics requests, never read) x {audit pipe EOF, SIGTERM}, SIGINT / SIGTERM to a daemon that was started with that signal ignored (inherited disposition), 6 start-up causes (sshd/audit path is a regular file, a directory, missing); oracle: the process exits within 10 s of the cause, non-zero for failures. A cell whose set-up could not be reached is inconclusive (exit 0, exhaustive=false). distinct_nontrivial = conclusive cells",
 		Extra: map[string]any{"cells": results, "saturated_cells_reached": sat, "inconclusive": inconclusive, "bound_s": exitBound.Seconds()}}
 	cov.Assumptions = []string{"the OS scheduler is not controlled; 10 s is the property's bounded time against observed millisecond latencies",
 		"the decisive blocking state (line buffer full, consumer gone) is also decided deterministically by C13's bubble cells"}
